@@ -365,6 +365,27 @@ static void c07rand(unsigned long nseq, int nops)
     }
 }
 
+/* ------------------------------------------------ witness: period under deferred processing */
+static unsigned long WitCnt;
+static void wit_cb(void *arg) { (void)arg; WitCnt++; }
+static void witness_period(void)
+{
+    /* a cyclic action of 3 ticks, tick service every tick, processing after every second tick: "once every period" means 200 runs in
+     * 600 ticks (every expiry is processed in the next processing step, the period is anchored at the expiry). The pinned tree re-arms a
+     * cyclic action relative to the processing step, so every tick between service and processing is added to the period (recorded finding). */
+    S = malloc(sizeof(SYS)); sys_init(2, 1);
+    WitCnt = 0;
+    (void)COTmrCreate(&Node.Tmr, 3, 3, wit_cb, 0);
+    for (int t = 1; t <= 600; t++) {
+        S->clock++;
+        (void)COTmrService(&Node.Tmr);
+        if (t % 2 == 0) COTmrProcess(&Node.Tmr);
+    }
+    COTmrProcess(&Node.Tmr);
+    if (WitCnt != 200) VIOL("deferred/period-anchor", "period 3 ticks, processing after every 2nd tick, 600 ticks: %lu runs, reference 200 (period counted from the processing step instead of the expiry)", WitCnt);
+    printf("stat executions 1\n");
+}
+
 /* ------------------------------------------------------------- conversions */
 static void conv(unsigned long n)
 {
@@ -592,6 +613,7 @@ int main(int argc, char **argv)
     for (int k = 0; k < NSLOT; k++) Slots[k] = k;
     if (!strcmp(mode, "c07bfs")) c07bfs(atoi(argv[2]), atoi(argv[3]), (size_t)strtoul(argv[4], 0, 0));
     else if (!strcmp(mode, "c07rand")) { Rng = 0x9E3779B97F4A7C15ull ^ (strtoull(argv[2], 0, 0) * 0x2545F4914F6CDD1Dull); c07rand(strtoul(argv[3], 0, 0), atoi(argv[4])); }
+    else if (!strcmp(mode, "witness")) { witness_period(); }
     else if (!strcmp(mode, "conv")) { Rng = 0x9E3779B97F4A7C15ull ^ (strtoull(argv[2], 0, 0) * 0x2545F4914F6CDD1Dull); conv(strtoul(argv[3], 0, 0)); }
     else if (!strcmp(mode, "c08plain")) { Rng = 0x9E3779B97F4A7C15ull ^ (strtoull(argv[2], 0, 0) * 0x2545F4914F6CDD1Dull); c08plain(strtoul(argv[3], 0, 0), atoi(argv[4])); }
     else if (!strcmp(mode, "c08fast")) { Rng = 0x9E3779B97F4A7C15ull ^ (strtoull(argv[2], 0, 0) * 0x2545F4914F6CDD1Dull); c08fast(strtoul(argv[3], 0, 0), atoi(argv[4])); }
